@@ -49,13 +49,15 @@ class C01Machine(Machine):
 
     @classmethod
     def draw_config(cls, rng, tier):
-        n_uri = rng.randint(3, 14)
+        deep = tier == "thorough" and rng.random() < 0.3
+        n_uri = rng.randint(3, 14) if not deep else rng.randint(10, 26)
         cfg = {
-            "max_ops": 40,
+            "max_ops": 40 if not deep else 90,
+            "deep": deep,
             "delimiter": rng.choice(tokens.DELIMITERS),
             "curie_pool": tokens.pick_pool(rng, tokens.CURIE_PREFIXES, tokens.RARE_CURIE_PREFIXES, 3, 10),
             "uri_pool": tokens.pick_pool(rng, tokens.URI_PREFIXES, tokens.RARE_URI_PREFIXES, n_uri, n_uri, rare_p=0.2),
-            "n_records": rng.randint(1, 8),
+            "n_records": rng.randint(1, 8) if not deep else rng.randint(6, 14),
             "n_schedules": 3 if rng.random() < 0.25 else 1,
             "p_ctor_first": rng.choice([0.0, 0.3, 0.7]),
             "p_split": rng.choice([0.0, 0.3, 0.6]),
